@@ -254,6 +254,9 @@ func (e *Exec) run() {
 	e.cur = nil
 	w0 := e.W(s)
 	e.axiom("(>= " + w0 + " 1)")
+	for _, c := range []string{"0.0", "1.0", "(- 1.0)"} {
+		e.fl.addPoint(e, "0", c)
+	}
 	e.entryW = w0
 	vars := map[string]Value{}
 	addParam := func(v ssa.Value, name string) {
@@ -539,6 +542,27 @@ func (e *Exec) finish(vars map[string]Value) {
 		env.vars["result"] = results[0]
 	}
 	e.cover("cover.exit", "", e.reach)
+	// case split of the postconditions over the dynamic type of interface-valued expressions
+	type splitCase struct{ guard, label string }
+	cases := []splitCase{{"", ""}}
+	entryEnv := &Env{e: e, vars: env.vars, st: e.entry, old: e.entry, pkgPath: e.Con.PkgPath}
+	for si, sx := range e.Con.Split {
+		v := e.evalSpecSafe(entryEnv, sx, e.Con, "split")
+		if !isInterface(v.T) {
+			panic(contractError{fmt.Sprintf("%s: split needs an interface-valued expression", e.Con.RawName)})
+		}
+		var next []splitCase
+		for _, c := range cases {
+			for _, dyn := range e.implTypes(v.T) {
+				g := fmt.Sprintf("(= %s %d)", v.S[0], typeReg.id(dyn))
+				if c.guard != "" {
+					g = "(and " + c.guard + " " + g + ")"
+				}
+				next = append(next, splitCase{g, c.label + "[" + e.Con.SplitTxt[si] + "=" + typeKey(dyn) + "]"})
+			}
+		}
+		cases = next
+	}
 	for i, en := range e.Con.Ensures {
 		if !en.activeFor(e.Prop) {
 			continue
@@ -548,7 +572,55 @@ func (e *Exec) finish(vars map[string]Value) {
 		if lbl == "" {
 			lbl = fmt.Sprintf("%d", i+1)
 		}
-		e.oblige("post", lbl, en.Text, en.Props, "", t)
+		for _, c := range cases {
+			e.oblige("post", lbl+c.label, en.Text, en.Props, c.guard, t)
+		}
+	}
+	// behavioural subtyping: the contract of an interface method binds every implementation
+	for _, ic := range e.ifaceContractsFor() {
+		ienv := &Env{e: e, vars: map[string]Value{}, st: exit, old: e.entry, pkgPath: ic.PkgPath}
+		for i, p := range e.Fn.Params {
+			if i < len(ic.Params) {
+				ienv.vars[ic.Params[i].Name] = e.vals[p]
+				if i == 0 {
+					// the receiver is seen through the interface
+					ienv.vars[ic.Params[i].Name] = e.makeIface(exit, e.vals[p], p.Type())
+				}
+			}
+		}
+		for i, r := range ic.Results {
+			if i < nres {
+				ienv.vars[r.Name] = results[i]
+			}
+		}
+		for i, en := range ic.Ensures {
+			if !en.activeFor(e.Prop) {
+				continue
+			}
+			t := e.evalSpecBool(ienv, en.Expr, ic, "ensures")
+			lbl := en.Label
+			if lbl == "" {
+				lbl = fmt.Sprintf("%d", i+1)
+			}
+			e.oblige("post", "iface:"+lbl, en.Text, en.Props, "", t)
+		}
+		// frame inclusion (component level)
+		pre := &Env{e: e, vars: ienv.vars, st: e.entry, old: e.entry, pkgPath: ic.PkgPath}
+		var allowed []modEntry
+		for i, m := range ic.Modifies {
+			allowed = append(allowed, e.modEntriesSafe(pre, m, ic.ModText[i], ic)...)
+		}
+		for _, own := range e.mods {
+			ok := false
+			for _, a := range allowed {
+				if a.comp == own.comp && (a.ref == "" || a.ref == own.ref) {
+					ok = true
+				}
+			}
+			if !ok {
+				panic(contractError{fmt.Sprintf("%s: frame entry %q is not covered by the interface contract %s", e.Con.RawName, own.text, ic.RawName)})
+			}
+		}
 	}
 }
 
@@ -573,4 +645,41 @@ func (e *Exec) ghostAssign(s *State, env *Env, ga *GhostAssign) {
 	}
 	e.frameCheck(comp, "")
 	e.setComp(s, comp, sort, nw)
+}
+
+// ifaceContractsFor returns the interface-method contracts this function has to honour.
+func (e *Exec) ifaceContractsFor() []*Contract {
+	recv := e.Fn.Signature.Recv()
+	if recv == nil {
+		return nil
+	}
+	var out []*Contract
+	for _, k := range sortedKeys(e.CS.ByKey) {
+		ic := e.CS.ByKey[k]
+		if !ic.Iface || !strings.HasSuffix(k, "."+e.Fn.Name()) {
+			continue
+		}
+		// key = pkgpath.Iface.Method
+		rest := strings.TrimSuffix(k, "."+e.Fn.Name())
+		i := strings.LastIndex(rest, ".")
+		if i < 0 {
+			continue
+		}
+		sp, ok := e.P.ByPkg[rest[:i]]
+		if !ok {
+			continue
+		}
+		o := sp.Pkg.Scope().Lookup(rest[i+1:])
+		if o == nil {
+			continue
+		}
+		it, ok := o.Type().Underlying().(*types.Interface)
+		if !ok {
+			continue
+		}
+		if types.Implements(recv.Type(), it) {
+			out = append(out, ic)
+		}
+	}
+	return out
 }
